@@ -3,6 +3,7 @@
 mod auth_engine;
 mod codec_engine;
 mod core_engine;
+mod persist_engine;
 mod util;
 
 fn main() {
@@ -16,6 +17,7 @@ fn main() {
         "core" => core_engine::main(&args[2], &args[3]),
         "codec" => codec_engine::main(&args[2], &args[3]),
         "auth" => auth_engine::main(&args[2], &args[3]),
+        "persist" => persist_engine::main(&args[2], &args[3]),
         other => {
             eprintln!("unknown engine {other}");
             std::process::exit(2);
